@@ -276,7 +276,11 @@ def run(tier, seed):
     if tier == 'quick':  # one process: the count is complete; the fault part must not be vacuous
         out['db_fault_ticks_hit'] = Mon.fault_ticks_hit
         if not Mon.fault_ticks_hit:
-            raise RuntimeError('C03 harness: no injected db.next() failure was ever reached')
+            if out.get('truncated'):
+                # the wall-clock budget ran out before the fault part (busy machine): say so, it is not a verdict
+                out['db_fault_part'] = 'not reached before the time budget ran out; the exploration was truncated'
+            else:
+                raise RuntimeError('C03 harness: no injected db.next() failure was ever reached')
     return out
 
 
